@@ -240,6 +240,15 @@ def pixelBlock (o : Obj) (block : List (Int × Int)) : Pixels :=
   ⟨(b0.2 - b0.1).toNat, (b1.2 - b1.1).toNat, (b2.2 - b2.1).toNat,
    o.pix.ch.map (fun f i j k => f (b0.1 + i) (b1.1 + j) (b2.1 + k)), o.pix.isBool⟩
 def Ret.setPixels (r : Ret) (p : Pixels) : Ret := r.mapObj fun o => { o with pix := { o.pix with ch := p.ch } }
+/-- `image.pixels[...] = values` on an image -/
+def setPixelValues (o : Obj) (p : Pixels) : Obj := { o with pix := { o.pix with ch := p.ch } }
+/-- the value returned by an operation with its image replaced (an update through the view `result[0]` / `result`) -/
+def Ret.withObj : Ret → Obj → Ret
+  | .img _, o => .img o
+  | .pair _ t, o => .pair o t
+@[simp] theorem Ret.withObj_setPixelValues (r : Ret) (p : Pixels) :
+    r.withObj (setPixelValues r.obj p) = r.setPixels p := by
+  cases r <;> rfl
 
 /-- `PointCloud.bounds(boundary)` / `range()` of 3-D points -/
 def boundsOf (pts : List V3) (boundary : Rat) : V3 × V3 :=
